@@ -198,6 +198,7 @@ func runC01(x *X) {
 		pool = []string{"", "x", "a\nb", "x\n", "\n", "ｗ"}
 	}
 	runC01Neighbours(x)
+	runC01BigTable(x)
 	x.Explore("interfaces", ExploreOpts{ShardDepth: 2, Bound: fmt.Sprintf("32 types x value|pointer x %d^k method texts x sizes x 4 paths, with mutation for pointers", len(pool))}, func(c *Chooser) {
 		mask := c.Choose(32)
 		ptr := c.Bool()
